@@ -16,6 +16,7 @@ V: the recorded (before, after) pairs are validated by Trace_Cleanup.tla (clause
 import json
 import os
 import random
+import shutil
 import subprocess
 import threading
 import time
@@ -151,9 +152,14 @@ def replay(ctx, binp, scripts, tag, procs):
                          "VERIF_C32_STORE": ctx.mkdir("store")})
         cpu = cpus[(p * max(1, len(cpus) // procs)) % len(cpus)]
         log = open(ctx.path("replay", "%s_log_%d.txt" % (tag, p)), "w")
-        pr = subprocess.Popen([binp, "-test.run", "^TestVerif_C32_Replay$", "-test.count=1", "-test.timeout", "7200s"],
-                              cwd=ctx.work, env=env, stdout=log, stderr=subprocess.STDOUT,
-                              preexec_fn=(lambda c=cpu: os.sched_setaffinity(0, {c})))
+        pin = ["taskset", "-c", str(cpu)] if shutil.which("taskset") else []
+        pr = subprocess.Popen(pin + [binp, "-test.run", "^TestVerif_C32_Replay$", "-test.count=1", "-test.timeout", "7200s"],
+                              cwd=ctx.work, env=env, stdout=log, stderr=subprocess.STDOUT)
+        if not pin:
+            try:
+                os.sched_setaffinity(pr.pid, {cpu})
+            except OSError:
+                pass
         jobs.append((pr, part, out, log))
     events = [None] * len(scripts)
     for pr, part, out, log in jobs:
